@@ -13,8 +13,12 @@ package main
 
 import (
 	"bytes"
+	"encoding/json"
 	"fmt"
 	"os"
+	"os/exec"
+	"path/filepath"
+	"strings"
 
 	"github.com/ontio/ontology-crypto/keypair"
 	"github.com/polynetwork/poly/account"
@@ -191,6 +195,52 @@ func openLedger(dir string, acct *account.Account) (*ledger.Ledger, *ledgerkit.L
 	return lg, kit
 }
 
+// genBlock: the records of block h (k records under a seeded labelling) and the transactions that write them.
+func genBlock(h, k int, rng *vio.RNG, noncep *uint32) (*blockInfo, []*types.Transaction) {
+	nonce := *noncep
+	bi := &blockInfo{lab: []string{"id", "id", "pairs", "same"}[rng.Intn(4)]}
+	if k < 2 {
+		bi.lab = "id"
+	}
+	for i := 0; i < k; i++ {
+		v := fmt.Sprintf("rec-%d-%d-%x", h, i, rng.Bytes(1+rng.Intn(40)))
+		if j := labIndex(bi.lab, i, k); j != i {
+			v = bi.records[j].val
+		}
+		bi.records = append(bi.records, record{key: fmt.Sprintf("k/%d/%d", h, i), val: v})
+	}
+	// distribute the records over 1..3 transactions, optionally with a failing transaction in between
+	var txs []*types.Transaction
+	ntx := 1 + rng.Intn(3)
+	cut := make([]int, 0, ntx)
+	for t := 1; t < ntx; t++ {
+		cut = append(cut, rng.Intn(k+1))
+	}
+	var steps []ledgerkit.Step
+	flush := func() {
+		nonce++
+		txs = append(txs, ledgerkit.ProbeTx(steps, nonce))
+		steps = nil
+	}
+	for i := 0; i <= k; i++ {
+		for _, cc := range cut {
+			if cc == i {
+				flush()
+				if rng.Intn(3) == 0 {
+					steps = []ledgerkit.Step{{Op: "rec", K: "never-committed"}, {Op: "put", K: "junk", V: "x"}, {Op: "fail"}}
+					flush()
+				}
+			}
+		}
+		if i < k {
+			steps = append(steps, ledgerkit.Step{Op: "put", K: bi.records[i].key, V: bi.records[i].val}, ledgerkit.Step{Op: "rec", K: bi.records[i].val})
+		}
+	}
+	flush()
+	*noncep = nonce
+	return bi, txs
+}
+
 func (c *c08Run) runChain(chain []int, acct *account.Account, rng *vio.RNG, gridEvery bool) {
 	dir, err := os.MkdirTemp(".", "c08-")
 	vio.Must(err)
@@ -201,45 +251,7 @@ func (c *c08Run) runChain(chain []int, acct *account.Account, rng *vio.RNG, grid
 	nonce := uint32(rng.Intn(1 << 20))
 	for hi, k := range chain {
 		h := hi + 1
-		bi := &blockInfo{lab: []string{"id", "id", "pairs", "same"}[rng.Intn(4)]}
-		if k < 2 {
-			bi.lab = "id"
-		}
-		for i := 0; i < k; i++ {
-			v := fmt.Sprintf("rec-%d-%d-%x", h, i, rng.Bytes(1+rng.Intn(40)))
-			if j := labIndex(bi.lab, i, k); j != i {
-				v = bi.records[j].val
-			}
-			bi.records = append(bi.records, record{key: fmt.Sprintf("k/%d/%d", h, i), val: v})
-		}
-		// distribute the records over 1..3 transactions, optionally with a failing transaction in between
-		var txs []*types.Transaction
-		ntx := 1 + rng.Intn(3)
-		cut := make([]int, 0, ntx)
-		for t := 1; t < ntx; t++ {
-			cut = append(cut, rng.Intn(k+1))
-		}
-		var steps []ledgerkit.Step
-		flush := func() {
-			nonce++
-			txs = append(txs, ledgerkit.ProbeTx(steps, nonce))
-			steps = nil
-		}
-		for i := 0; i <= k; i++ {
-			for _, cc := range cut {
-				if cc == i {
-					flush()
-					if rng.Intn(3) == 0 {
-						steps = []ledgerkit.Step{{Op: "rec", K: "never-committed"}, {Op: "put", K: "junk", V: "x"}, {Op: "fail"}}
-						flush()
-					}
-				}
-			}
-			if i < k {
-				steps = append(steps, ledgerkit.Step{Op: "put", K: bi.records[i].key, V: bi.records[i].val}, ledgerkit.Step{Op: "rec", K: bi.records[i].val})
-			}
-		}
-		flush()
+		bi, txs := genBlock(h, k, rng, &nonce)
 		blk := kit.Build(txs, nil)
 		if _, err := kit.Commit(blk); err != nil {
 			vio.Fatal("harness: commit of block %d failed: %v", h, err)
@@ -287,6 +299,166 @@ func (c *c08Run) runChain(chain []int, acct *account.Account, rng *vio.RNG, grid
 	if p := vio.Safe(func() { lg.Close() }); p != "" {
 		c.violate("ledger-close-panic", obj{"panic": p})
 	}
+}
+
+// ---- crash between the store commits + recovery -------------------------------------------------------------------
+// For the served-proof abstraction a kill between blockStore.CommitTo and stateStore.CommitTo followed by a restart is a
+// stuttering step: recovery replays the block, after which the block is committed like any other (C12 decides that on its own
+// model).  What C08 adds: the REPLAYED block's records and hash must be served and provable exactly like those of a block that
+// was submitted without a crash.  The chain up to the crash runs in a child process (this binary, `c08-child`) that exits hard
+// at the crash point; the parent reopens the directory (recovery runs), checks every height, continues the chain, checks again.
+
+type manifestEntry struct {
+	H       int      `json:"h"`
+	Lab     string   `json:"lab"`
+	Keys    []string `json:"keys"`
+	Vals    []string `json:"vals"`
+	Hash    string   `json:"hash"`
+	Crashed bool     `json:"crashed"`
+}
+
+func c08Child(args []string) {
+	log.InitLog(log.FatalLog)
+	ledgerkit.RegisterProbe()
+	dir, acctFile, manifest := args[0], args[1], args[2]
+	crashAt, point := atoi(args[3]), args[4]
+	var chain []int
+	for _, x := range strings.Split(args[5], ",") {
+		chain = append(chain, atoi(x))
+	}
+	acct := ledgerkit.LoadOrCreateAccounts(acctFile, 1)[0]
+	_, kit := openLedger(dir, acct)
+	rng := vio.NewRNG(vio.Seed()*977 + uint64(crashAt))
+	nonce := uint32(rng.Intn(1<<20)) + 1<<22
+	mf, err := os.OpenFile(manifest, os.O_CREATE|os.O_WRONLY|os.O_APPEND, 0644)
+	vio.Must(err)
+	for hi, k := range chain {
+		h := hi + 1
+		bi, txs := genBlock(h, k, rng, &nonce)
+		blk := kit.Build(txs, nil)
+		bh := blk.Hash()
+		e := manifestEntry{H: h, Lab: bi.lab, Hash: vio.Hex(bh[:]), Crashed: h == crashAt}
+		for _, r := range bi.records {
+			e.Keys = append(e.Keys, r.key)
+			e.Vals = append(e.Vals, r.val)
+		}
+		b, _ := json.Marshal(e)
+		mf.Write(append(b, '\n'))
+		mf.Sync()
+		if h == crashAt {
+			ledgerstore.VerifCrashHook = func(p string) {
+				if p == point {
+					os.Exit(77) // no Close, no deferred work: the process is gone between two store commits
+				}
+			}
+		}
+		if _, err := kit.Commit(blk); err != nil {
+			fmt.Fprintf(os.Stderr, "child: commit of block %d failed: %v\n", h, err)
+			os.Exit(3)
+		}
+		if h == crashAt {
+			os.Exit(78) // the crash point was never reached
+		}
+	}
+	os.Exit(0)
+}
+
+func (c *c08Run) runCrashChain(chain []int, crashAt int, point string, rng *vio.RNG) int {
+	dir, err := os.MkdirTemp(".", "c08c-")
+	vio.Must(err)
+	defer os.RemoveAll(dir)
+	ldir := filepath.Join(dir, "ledger")
+	acctFile, manifest := filepath.Join(dir, "keys"), filepath.Join(dir, "manifest")
+	acct := ledgerkit.LoadOrCreateAccounts(acctFile, 1)[0]
+	exe, err := os.Executable()
+	vio.Must(err)
+	var strs []string
+	for _, k := range chain[:crashAt] {
+		strs = append(strs, fmt.Sprint(k))
+	}
+	cmd := exec.Command(exe, "c08-child", ldir, acctFile, manifest, fmt.Sprint(crashAt), point, strings.Join(strs, ","))
+	cmd.Env = os.Environ()
+	out, err := cmd.CombinedOutput()
+	code := -1
+	if cmd.ProcessState != nil {
+		code = cmd.ProcessState.ExitCode()
+	}
+	if code != 77 {
+		vio.Fatal("crash child ended with code %d (%v) instead of dying at %s: %s", code, err, point, string(out))
+	}
+	blocks := map[int]*blockInfo{}
+	var hashes []common.Uint256
+	mb, err := os.ReadFile(manifest)
+	vio.Must(err)
+	var lg *ledger.Ledger
+	var kit *ledgerkit.Ledger
+	if p := vio.Safe(func() { lg, kit = openLedger(ldir, acct) }); p != "" || lg == nil {
+		c.violate("ledger-reopen-after-crash-failed", obj{"panic": p, "crash_point": point, "crash_height": crashAt})
+		return crashAt
+	}
+	hashes = append(hashes, lg.GetBlockHash(0))
+	for _, ln := range strings.Split(strings.TrimSpace(string(mb)), "\n") {
+		var e manifestEntry
+		vio.Must(json.Unmarshal([]byte(ln), &e))
+		bi := &blockInfo{lab: e.Lab}
+		for i := range e.Keys {
+			bi.records = append(bi.records, record{key: e.Keys[i], val: e.Vals[i]})
+		}
+		blocks[e.H] = bi
+		var u common.Uint256
+		copy(u[:], vio.UnHex(e.Hash))
+		hashes = append(hashes, u)
+	}
+	H := int(lg.GetCurrentBlockHeight())
+	if H != crashAt {
+		// both crash points lie after the block store commit: the block is part of the chain after recovery
+		c.violate("crashed-block-missing-after-recovery", obj{"height_after_recovery": H, "crash_height": crashAt, "crash_point": point})
+		if H > crashAt {
+			H = crashAt
+		}
+	}
+	full := func(phase string, upto int) {
+		for hh := 1; hh <= upto; hh++ {
+			c.checkCross(lg, hh, blocks[hh], phase)
+		}
+		for r := 1; r <= upto; r++ {
+			for h1 := 0; h1 < r; h1++ {
+				c.checkBlockProof(lg, h1, r, hashes, phase)
+			}
+		}
+	}
+	phase := "after-crash-at-" + point + "-and-recovery"
+	full(phase, H)
+	commits := crashAt
+	// the chain goes on in this process
+	if H == crashAt {
+		nonce := uint32(rng.Intn(1<<20)) + 1<<23
+		for hi := crashAt; hi < len(chain); hi++ {
+			h := hi + 1
+			bi, txs := genBlock(h, chain[hi], rng, &nonce)
+			blk := kit.Build(txs, nil)
+			if _, err := kit.Commit(blk); err != nil {
+				c.violate("commit-after-recovery-failed", obj{"h": h, "err": err.Error(), "crash_point": point})
+				break
+			}
+			commits++
+			blocks[h] = bi
+			hashes = append(hashes, blk.Hash())
+			H = h
+		}
+		full(phase+"-continued", H)
+	}
+	if p := vio.Safe(func() { lg.Close() }); p != "" {
+		c.violate("ledger-close-panic", obj{"panic": p})
+	}
+	lg = nil
+	if p := vio.Safe(func() { lg, _ = openLedger(ldir, acct) }); p != "" || lg == nil {
+		c.violate("ledger-reopen-failed", obj{"panic": p})
+		return commits
+	}
+	full(phase+"-reopened", H)
+	vio.Safe(func() { lg.Close() })
+	return commits
 }
 
 // ---- nested calls (table "c08nest") --------------------------------------------------------------------------------
@@ -430,7 +602,12 @@ func c08(args []string) {
 	c := &c08Run{cross: map[string]*crossRow{}, block: map[[2]int]*blockRowT{}, distinct: map[string]bool{}, drift: map[string]int{}, reportCap: 40}
 	var chains [][]int
 	var nest []obj
+	var crashes []obj
 	for _, r := range rows {
+		if cr, ok := r["crash"].(obj); ok {
+			crashes = append(crashes, cr)
+			continue
+		}
 		if ch, ok := r["chain"]; ok {
 			chains = append(chains, ints(ch.([]interface{})))
 			continue
@@ -455,8 +632,14 @@ func c08(args []string) {
 		c.runChain(ch, acct, rng, len(ch) <= 8)
 		commits += len(ch)
 	}
+	crashed := 0
+	for i, cr := range crashes {
+		c.chainNo = 1000 + i
+		commits += c.runCrashChain(ints(getl(cr, "chain")), geti(cr, "at"), gets(cr, "point"), rng)
+		crashed++
+	}
 	c.chainNo = -1
 	nestCommits := c.runNest(nest, acct, rng)
 	commits += nestCommits
-	vio.Emit(obj{"summary": true, "chains": len(chains), "commits": commits, "nested_call_blocks": nestCommits, "evaluations": c.evals, "distinct": len(c.distinct), "drift": c.drift})
+	vio.Emit(obj{"summary": true, "chains": len(chains), "commits": commits, "nested_call_blocks": nestCommits, "crash_recovery_chains": crashed, "evaluations": c.evals, "distinct": len(c.distinct), "drift": c.drift})
 }
